@@ -134,10 +134,32 @@ pub fn open_response(
     let state = match b.resp {
         Resp::OkOpen => Ok(Open { id: OrderId::new(format!("x-{cid}")), time_exchange: ts(now_ms as i64), filled_quantity: dec(0) }),
         Resp::OkFull => Ok(Open { id: OrderId::new(format!("x-{cid}")), time_exchange: ts(now_ms as i64), filled_quantity: st.quantity }),
-        Resp::Rejected => Err(UnindexedOrderError::Rejected(ApiError::OrderRejected("sim".into()))),
+        Resp::Rejected => Err(UnindexedOrderError::Rejected(rejection_for(&key.instrument))),
         Resp::Connectivity => Err(UnindexedOrderError::Connectivity(ConnectivityError::Socket("sim".into()))),
     };
     Order { key, side: st.side, price: st.price, quantity: st.quantity, kind: st.kind, time_in_force: st.time_in_force, state }
+}
+
+thread_local! {
+    /// (instrument name, asset name): a rejected open for that instrument is an insufficient-balance
+    /// error naming that asset (the margin / settlement asset of a derivative)
+    static MARGIN_REJECT: std::cell::RefCell<Option<(String, String)>> = const { std::cell::RefCell::new(None) };
+}
+pub struct MarginRejectGuard;
+impl Drop for MarginRejectGuard {
+    fn drop(&mut self) {
+        MARGIN_REJECT.with(|m| *m.borrow_mut() = None);
+    }
+}
+pub fn set_margin_reject(v: Option<(String, String)>) -> MarginRejectGuard {
+    MARGIN_REJECT.with(|m| *m.borrow_mut() = v);
+    MarginRejectGuard
+}
+fn rejection_for(instrument: &InstrumentNameExchange) -> ApiError<AssetNameExchange, InstrumentNameExchange> {
+    match MARGIN_REJECT.with(|m| m.borrow().clone()) {
+        Some((inst, asset)) if inst == instrument.name().as_str() => ApiError::BalanceInsufficient(AssetNameExchange::from(asset.as_str()), "sim margin".into()),
+        _ => ApiError::OrderRejected("sim".into()),
+    }
 }
 
 pub async fn wait_behav(b: Behav) {
@@ -271,9 +293,7 @@ impl ExecutionClient for SimClient {
                     time_exchange: ts(me.now_ms() as i64),
                     filled_quantity: st.quantity,
                 }),
-                Resp::Rejected => Err(UnindexedOrderError::Rejected(ApiError::OrderRejected(
-                    "sim".into(),
-                ))),
+                Resp::Rejected => Err(UnindexedOrderError::Rejected(rejection_for(&key.instrument))),
                 Resp::Connectivity => Err(UnindexedOrderError::Connectivity(
                     ConnectivityError::Socket("sim".into()),
                 )),
